@@ -92,13 +92,22 @@ def _containment_net(fn, s, b):
     if len(body) < 2 or not (isinstance(body[-1], ast.Return) and isinstance(body[-1].value, ast.Name)):
         return None
     rname = body[-1].value.id
-    if any(isinstance(x, ast.Return) for st in body[:-1] for x in ast.walk(st)):
+    if any(isinstance(x, ast.Return) for st in body[:-2] for x in ast.walk(st)):
         return None
     guard = body[-2]
-    if not (isinstance(guard, ast.If) and not guard.orelse and len(guard.body) == 1 and isinstance(guard.body[0], ast.Assign)):
+    if not (isinstance(guard, ast.If) and not guard.orelse and len(guard.body) == 1):
         return None
     asg = guard.body[0]
-    if not (len(asg.targets) == 1 and isinstance(asg.targets[0], ast.Name) and asg.targets[0].id == rname and isinstance(asg.value, ast.Call) and (dotted(asg.value.func) or "").split(".")[-1] == "top"):
+    # `R = <top>` (falling through to `return R`) or `return <top>` straight away
+    if isinstance(asg, ast.Assign):
+        if not (len(asg.targets) == 1 and isinstance(asg.targets[0], ast.Name) and asg.targets[0].id == rname):
+            return None
+        topv = asg.value
+    elif isinstance(asg, ast.Return) and asg.value is not None:
+        topv = asg.value
+    else:
+        return None
+    if not (isinstance(topv, ast.Call) and (dotted(topv.func) or "").split(".")[-1] == "top"):
         return None
     t = guard.test
     # `not (A and B)` or `not A or not B`
@@ -136,7 +145,7 @@ def c22_widen(R):
     raw = util.resolve_locals(tree.func(SI, "StridedInterval.widen"))
     rps = positional_params(raw)
     R.need(len(rps) == 2, "StridedInterval.widen no longer takes two operands")
-    net = _containment_net(raw, rps[0], rps[1])
+    net = _containment_net(tree.func(SI, "StridedInterval.widen"), rps[0], rps[1]) or _containment_net(raw, rps[0], rps[1])
     if net is not None:
         # whatever the extrapolation builds, it is returned only after it has been found to contain both operands
         # (the full interval otherwise): the per-path obligations below are discharged by the test itself, provided
